@@ -1272,6 +1272,8 @@ class Exec:
             v = v.copy()
             if 'Array' in ty: v.arr = True
             elif 'Matrix' in ty or 'Vector' in ty: v.arr = False
+        if isinstance(v, ListIt) and '&' not in ty:
+            v = ListIt(v.lst, v.i)
         if isinstance(v, list) and '&' not in ty:
             v = v.clone() if hasattr(v, 'clone') else (list(v) if type(v) is list else v)      # by-value copy; model objects that ARE lists copy themselves
         if isinstance(v, int) and not isinstance(v, bool) and re.search(r'\b(double|float)\b', ty) and '*' not in ty:
@@ -1514,6 +1516,8 @@ class Exec:
             r = r.scalar()
         if isinstance(r, Mx):
             r = r.copy()
+        if isinstance(r, ListIt):
+            r = ListIt(r.lst, r.i)      # iterators are values: j = i must not alias i
         l.set(r)
 
     def to_int(s, v):
